@@ -413,6 +413,13 @@ int main(int argc, char **argv)
 	for (i = 0; i <= 4300 + 5; i++)
 		for (fn = 0; fn < 2; fn++)
 			add_case(1, i <= 4300 ? i : 8190 + (i - 4301), 0, 0, 0, fn, 0, 0, K, 1, 0);
+	/* (i') quick tier: two deviations (e.g. a short write whose retry is short again) at every size class */
+	if (K < 2)
+		for (i = 0; i < nL; i++)
+			for (fn = 0; fn < 2; fn++) {
+				add_case(1, L[i], 0, 0, 0, fn, 0, 0, 2, 1, 0);
+				add_case(2, L[i], 5000, 0, 0, fn, 0, 0, 2, 1, 0);
+			}
 	/* (ii) files of two (thorough: three) lines with lengths around every size class */
 	for (i = 0; i < nL; i++)
 		for (j = 0; j < nL; j++)
